@@ -86,6 +86,12 @@ Definition step (s : st) (r : list Z) : option st :=
       else if (fld r 5 =? 3) && (fld r 6 =? 12) && existsb (key_eqb (1 - rep r, ridx r)) (closed s) then Some s
       (* the peer closed but its close packet was lost or corrupted: timing out is all that is left *)
       else if (fld r 5 =? 6) && existsb (key_eqb (1 - rep r, ridx r)) (closed s) then Some s
+      (* the server ENDPOINT may refuse an attempt with an Initial-protected CONNECTION_CLOSE (e.g.
+         INVALID_TOKEN for a replayed Initial whose Retry token it no longer accepts); Initial keys
+         derive from the client's public DCID, so whoever relays that datagram - or a copy of it -
+         to a client that is still handshaking ends the attempt *)
+      else if (fld r 5 =? 3) && (rep r =? 0) && negb (existsb (key_eqb (rkey r)) (connected s))
+              && existsb (fun p => fst p =? 1) (resp s) then Some s
       (* a Version Negotiation packet may end a client that has not yet accepted any server packet *)
       else if (fld r 5 =? 1) && (rep r =? 0) && negb (existsb (key_eqb (rkey r)) (genuine s)) then Some s
       (* heavy corruption or loss on the path is a denial of service by loss, not a forgery *)
